@@ -1658,10 +1658,13 @@ def chk_range(seed, comps):
             items += [(t, bool(hc)) for t in range(lo, hi + 1)]
         exp_comps.append(items)
     want_paths = list(itertools.product(*exp_comps))
-    got_paths = list(subpaths_for_path_range(text))
+    try:
+        got_paths = list(subpaths_for_path_range(text))
+        keys = list(m.subkeys(text))
+    except Exception as e:
+        return {"kind": "range-raises", "range": text, "detail": "%s: %s" % (type(e).__name__, e)}
     if len(got_paths) != len(want_paths):
         return {"kind": "range-count", "range": text, "got": len(got_paths), "want": len(want_paths)}
-    keys = list(m.subkeys(text))
     for gp, wp, k in zip(got_paths, want_paths, keys):
         if gp != "/".join("%d%s" % (t, "H" if h else "") for t, h in wp):
             return {"kind": "range-element", "range": text, "got": gp}
